@@ -65,6 +65,37 @@ CLAIMED = {
         "every run. 'Newest first' is read as reverse list order (man/tickit.7). Assumes event numbers >= 0 and destroy only at top level; no termination "
         "theorem (a handler that re-binds itself on every call loops in C and model alike). Trusted: Coq kernel; model BindDefs.v; monitor BindSpec.v; extraction.",
    design="6/C16", technique="Coq fuelled re-entrant interpreter over a Section-variable handler environment; simulation proof against a reference monitor; extracted-model vs C differential check; extracted monitor as oracle"),
+ "C17": dict(
+   text="Machine-checked proof (Coq 8.16, no axioms) that the model of the timer / deferred-callback machinery of src/tickit.c REFINES a priority-queue "
+        "specification: C17_refines (equality of the whole observation log - callbacks with flags, iteration, clock, ppoll timeouts, destroy notifications - "
+        "for EVERY callback environment, script of register/cancel operations from outside or inside callbacks, and clock sequence), with C17_at_most_once, "
+        "C17_order, C17_never_early, C17_later_iteration, C17_iteration_completes, C17_destroy_notifies as theorems. Tie: the real Tickit instance under a "
+        "virtual clock (gettimeofday/ppoll wrapped at link time), ~61k scripted histories per quick run, ASan/UBSan + per-case leak check.",
+   note="Holds for the repaired code (fix: 6644250, 1faa61d); the pinned code is refuted by five C17_refuted_* witnesses, replayed every run. Equality of the "
+        "spec's two formulations is cross-checked by the oracle on every case, not proved. Trusted: Coq kernel; model LoopDefs.v tied by differential testing; "
+        "extraction; the harness's clock/ppoll wrappers.",
+   design="6/C17", technique="Coq refinement proof (log equality with a priority-queue spec) over all callback environments; extracted model and spec run against the real instance under a virtual clock; ASan/LSan"),
+ "C18": dict(
+   text="PARTIAL by nature (kernel signal/ppoll semantics are a stated hypothesis). Machine-checked proof (Coq 8.16, no axioms) over the model of one iteration "
+        "of src/evloop-default.c as a function of the ppoll outcome: the handler's pending set is empty after every iteration for every arrival point and every "
+        "errno side effect (C18_signal_reaches, C18_interrupted_iteration_dispatches), every IO watch invoked was live when ppoll returned and gets exactly the "
+        "conditions of its own descriptor (C18_io_exact), a cancelled watch is never invoked (C18_cancelled_not_invoked), poll-slot table hygiene. Tie: real "
+        "signals raised and the loop's real handler run in the harness, with ppoll replaced at link time by a function that plays the kernel (mask swap, EINTR, "
+        "readiness) at scripted points; callbacks perturb errno, cancel and re-register.",
+   note="Holds for the repaired code (fix: b5fb3ed, e0a376f, 5dc9719, 5568265, 2af2153); pinned code refuted (C18_*_refuted_pinned). Hypothesis: a watched "
+        "signal is blocked outside ppoll and delivered by the next ppoll, which returns EINTR. Refinement to the snapshot specification is tested, not proved; "
+        "C18_all_watchers_invoked holds for signal callbacks that do not themselves change the signal watch list. The self-pipe fallback of non-default loops is not modelled.",
+   design="6/C18", technique="Coq model + invariants per iteration over all ppoll outcomes; link-time ppoll replacement raising real signals; extracted-model vs C differential check; ASan/UBSan"),
+ "C20": dict(
+   text="PARTIAL by nature (libtermkey's tokenizer is trusted, as the property says). Machine-checked proof (Coq 8.16, no axioms): for ANY tokenizer that is "
+        "prefix-stable and consumes only with a key, pushing chunks c1..cn through the model of tickit_term_input_push_bytes / the drain loop emits the same "
+        "events as pushing their concatenation (C20_chunking, bounded tokenizer buffer included); key->event translation, zero-based positions, wheel, text vs "
+        "key (C20_events_of_keys, C20_positions, C20_wheel, C20_text_and_keys); a button-less release reports exactly the held buttons once each and the record "
+        "returns to empty (C20_held, C20_release_all). Tie: real terminals (xterm, xterm-vt220) fed every 2-cut, byte-wise and random k-cuts of streams of "
+        "text / modified keys / SGR + legacy mouse / status replies; whole-vs-fragmented logs and the model fed with the system libtermkey's own tokenization.",
+   note="Holds for the repaired code (fix: c16018e: input beyond libtermkey's 256-byte buffer was dropped when pushed in one call); pinned code refuted "
+        "(C20_chunking_refuted_pinned). The tokenizer hypotheses are exercised (not proved) on every run. Inter-byte timeouts are outside the property's quantifier.",
+   design="6/C20", technique="Coq proof over an abstract tokenizer (Section variable with explicit hypotheses); real terminal fed all 2-cuts and random k-cuts; reference tokenization by the system libtermkey; ASan/UBSan"),
 }
 
 NA_REASON = "not yet built in this revision: model/proof/correspondence for this property are scheduled (DESIGN.md section 10)"
